@@ -107,19 +107,21 @@ impl EventGen for LoopElement {
                     bbox.extend(bb);
                 }
 
-                if let LoopType::Until(expr) = &loop_def.loop_type {
-                    if eval_condition(expr, context)? {
-                        break;
-                    }
-                }
+                // Count (and limit) this pass before an `until` condition can end the
+                // loop, otherwise the final pass of an `until` loop is never counted.
                 iteration += 1;
-                loop_var_value += loop_step;
                 if iteration > context.config.loop_limit {
                     return Err(SvgdxError::LoopLimitError(
                         iteration,
                         context.config.loop_limit,
                     ));
                 }
+                if let LoopType::Until(expr) = &loop_def.loop_type {
+                    if eval_condition(expr, context)? {
+                        break;
+                    }
+                }
+                loop_var_value += loop_step;
             }
         }
         Ok((gen_events, bbox.build()))
